@@ -162,6 +162,16 @@ impl Translate for Rec {
         self.push(b't', v);
     }
 }
+impl Evaluate for Rec {
+    fn evaluate(&self, x: f64) -> f64 {
+        tagval(self.id ^ 0x5EC0, x)
+    }
+}
+impl Evaluate for Pair {
+    fn evaluate(&self, x: f64) -> f64 {
+        tagval((self.l as u32).wrapping_mul(31).wrapping_add(self.r as u32), x)
+    }
+}
 pub fn rec_pw(ends: &[f64]) -> Piecewise<Rec> {
     Piecewise {
         segments: ends
